@@ -1116,6 +1116,8 @@ class Interp:
             return [bytes_index(v, i) for i in range(v.length)]
         if hasattr(v, "sym_iter"):
             return v.sym_iter(self)
+        if isinstance(v, ClassObj) and v.is_enum and v.members is not None:
+            return list(v.members.values())
         if isinstance(v, Instance):
             f = v.cls.lookup("__iter__")
             if f is not MISSING:
